@@ -31,8 +31,7 @@ MANIFEST = dict(
          "additionally runs the core scripts on tables of up to 1000 points and TLC judges every logged output.",
     note="Trusted: TLC, perl's/awk's decimal printing of doubles (15 significant digits), the lattice argument (inputs "
          "are dyadic rationals, distributions powers of two: every documented result is an exact rational), Python's "
-         "Fraction/float conversion. Not covered: --with-errors, bond (r^2) and angle (sin) normalisation of the "
-         "Boltzmann inversion, exponential extrapolation, table_smooth_at_cut_off.py (needs numpy), "
+         "Fraction/float conversion. Not covered: the error column of --with-errors, csg_resample --fitgrid, table_smooth_at_cut_off.py (needs numpy), "
          "table_functional.sh (needs gnuplot), table_to_tab/xvg, tables_jackknife, the postupd_/postadd_ wrappers.")
 
 SCRIPTS = os.path.join(vlib.REPO, "csg", "share", "scripts", "inverse")
@@ -45,7 +44,8 @@ OPNAMES = ["update_ibi_pot", "dist_boltzmann_invert", "table_linearop", "table_l
            "table_combine_sum", "merge_tables", "add_POT", "table_scale", "table_integrate",
            "resample_derivative", "integrate_derivative", "potential_shift", "table_smooth",
            "table_extrapolate", "potential_extrapolate", "table_get_value", "table_change_flag",
-           "table_dummy", "table_average", "dist_adjust", "table_switch_border", "resample_same", "average_linearop"]
+           "table_dummy", "table_average", "dist_adjust", "table_switch_border", "resample_same", "average_linearop",
+           "table_combine_die", "resample_spline"]
 # csg_table keys of the scripts that can also be reached through csg_call
 CALLKEY = {"update_ibi_pot": ("update", "ibi_pot"), "dist_boltzmann_invert": ("dist", "invert"),
            "table_linearop": ("table", "linearop"), "table_linearop_x": ("table", "linearop"),
@@ -67,6 +67,33 @@ SCRIPTFILE = {"update_ibi_pot": "update_ibi_pot.pl", "dist_boltzmann_invert": "d
               "table_switch_border": "table_switch_border.pl"}
 SHELL_ONLY = {"potential_extrapolate", "table_change_flag", "table_dummy", "table_average"}
 OPWORD = {"+": "add", "-": "sub", "x": "mul", "*": "mul", "/": "div", "d": "d", "d2": "d2", "=": "eq"}
+
+
+def _req():
+    T = ("", "non-bonded", "bond", "angle", "dihedral")
+    F = ("", "constant", "linear", "quadratic", "sasha", "periodic", "exponential")
+    out = [("dist_boltzmann_invert", "type", t) for t in T]
+    out += [("dist_boltzmann_invert", "usemin", b) for b in (True, False)]
+    out += [("potential_shift", "type", t) for t in T + ("bonded",)]
+    out += [("table_combine", "cop", o) for o in OPWORD] + [("table_combine_sum", "cop", o) for o in OPWORD]
+    out += [("table_combine", "wf", w) for w in ("", "i", "o", "u")] + [("table_combine", "noflags", True), ("table_combine", "err", True)]
+    out += [("table_linearop", "wf", w) for w in ("", "i", "o", "u")] + [("table_linearop", "we", True), ("table_linearop_x", "wf", "i")]
+    out += [("merge_tables", "wf", w) for w in ("", "i", "o", "u")]
+    out += [("merge_tables", k, b) for k in ("noflags", "novalues") for b in (True, False)]
+    out += [("table_integrate", "from", v) for v in ("", "left", "right")]
+    out += [("table_integrate", "mode", v) for v in ("plain", "sphere", "S")] + [("table_integrate", "we", True)]
+    out += [("table_extrapolate", "fn", v) for v in F] + [("table_extrapolate", "region", v) for v in ("", "left", "right", "leftright")]
+    out += [("table_extrapolate", "fu", b) for b in (True, False)] + [("table_extrapolate", "defA", b) for b in (True, False)]
+    out += [("potential_extrapolate", "type", t) for t in T[1:]]
+    out += [("potential_extrapolate", "lf", v) for v in ("", "linear", "constant", "quadratic", "exponential", "sasha")]
+    out += [("potential_extrapolate", "rf", v) for v in ("", "linear", "constant", "quadratic", "exponential", "sasha")]
+    out += [(o, "clean", b) for o in ("potential_extrapolate", "table_average", "table_dummy") for b in (True, False)]
+    out += [(o, "type", v) for o in ("resample_same", "resample_spline") for v in ("", "linear", "akima", "cubic")]
+    out += [("resample_spline", "isline", b) for b in (True, False)] + [("table_combine_die", "ok", b) for b in (True, False)]
+    out += [(o, "e4", True) for o in ("update_ibi_pot", "dist_boltzmann_invert", "table_combine", "merge_tables", "add_POT",
+                                      "table_scale", "potential_shift", "table_smooth", "table_extrapolate", "table_get_value")]
+    out += [(o, "twice", True) for o in ("potential_shift", "dist_adjust", "table_change_flag", "table_extrapolate", "merge_tables")]
+    return out
 
 
 # ------------------------------------------------------------------------------------------------
@@ -93,6 +120,17 @@ def grid(c):
     """abscissae of the case's table: (x0 + g[k]) * h, equidistant or not"""
     h = fr(c["h"])
     return [float((c["x0"] + gk) * h) for gk in c["g"]]
+
+
+def unit_grid(c):
+    """the unit lattice (x0 + j) * h, j = 0..g[n], which contains every knot of a non-equidistant table"""
+    h = fr(c["h"])
+    return [float((c["x0"] + j) * h) for j in range(c["g"][-1] + 1)]
+
+
+def bi_norm(c, x):
+    """normalisation of dist_boltzmann_invert.pl --type: the file holds 2^e * norm(x), so that dist/norm = 2^e exactly"""
+    return x * x if c["type"] == "bond" else (math.sin(x) if c["type"] == "angle" else 1.0)
 
 
 def half_grid(c):
@@ -166,7 +204,8 @@ class Runner:
             write_tab(os.path.join(d, "pot.tab"), c, c["pot"])
             return [S(["tgt.tab", "cur.tab", "pot.tab", out, repr(real(c["c"]) / LN2)])], out, "table"
         if op == "dist_boltzmann_invert":
-            write_table(os.path.join(d, "in.tab"), grid(c), [dist_value(e) for e in c["e"]], "i" * c["n"], c)
+            xs = grid(c)
+            write_table(os.path.join(d, "in.tab"), xs, [dist_value(e) * bi_norm(c, x) for e, x in zip(c["e"], xs)], "i" * c["n"], c)
             a = ["--kbT", repr(real(c["c"]) / LN2)]
             if c["type"]:
                 a += ["--type", c["type"]]
@@ -180,6 +219,9 @@ class Runner:
                 a += ["--withflag", c["wf"]]
             if op == "table_linearop_x":
                 a += ["--on-x"]
+            if c.get("we"):
+                a += ["--with-errors"]
+                return [S(a + ["in.tab", out, num(c["a"]), num(c["b"])])], out, "table4e"
             return [S(a + ["in.tab", out, num(c["a"]), num(c["b"])])], out, "table"
         if op in ("table_combine", "table_combine_sum"):
             write_tab(os.path.join(d, "in1.tab"), c, c["t1"])
@@ -191,9 +233,17 @@ class Runner:
                 a += ["--withflag", c["wf"]]
             if c["noflags"]:
                 a += ["--no-flags"]
+            if c.get("err"):
+                a += ["--error", "0.001"]
             if op == "table_combine_sum":
                 return [S(a + ["--sum", "in1.tab", "in2.tab"])], None, "scalar"
             return [S(a + ["in1.tab", "in2.tab", out])], out, "table"
+        if op == "table_combine_die":
+            write_tab(os.path.join(d, "in1.tab"), c, c["t1"])
+            write_tab(os.path.join(d, "in2.tab"), c, c["t2"])
+            if via_call:           # csg_table: "table compare" = table_combine.pl --die --op =
+                return [[self.csg_call, "table", "compare", "in1.tab", "in2.tab"]], None, "exit"
+            return [["perl", os.path.join(SCRIPTS, "table_combine.pl"), "--die", "--op", "=", "in1.tab", "in2.tab"]], None, "exit"
         if op == "merge_tables":
             write_tab(os.path.join(d, "src.tab"), c, c["src"], c["off"])   # the source lives on points off.. of the common grid
             write_tab(os.path.join(d, "dst.tab"), c, c["dst"])
@@ -221,6 +271,8 @@ class Runner:
                 a += ["--sphere"]
             if c["mode"] == "S":
                 a += ["--with-S", "--kbT", num(c["kt"])]
+            if c.get("we"):
+                return [S(a + ["--with-errors", "in.tab", out])], out, "table4e"
             return [S(a + ["in.tab", out])], out, "table"
         if op in ("resample_derivative", "integrate_derivative"):
             write_tab(os.path.join(d, "in.tab"), c, c["t"])
@@ -234,6 +286,12 @@ class Runner:
             cmds.append([os.path.join(self.bindir, "csg_resample"), "--in", src, "--out", "res.tab", "--type", "linear",
                          "--grid", g, "--derivative", out])
             return cmds, out, "table"
+        if op == "resample_spline":
+            write_tab(os.path.join(d, "in.tab"), c, c["t"])
+            ug = unit_grid(c)
+            a = ["--type", c["type"]] if c["type"] else []
+            return [[os.path.join(self.bindir, "csg_resample"), "--in", "in.tab", "--out", out,
+                     "--grid", "%r:%r:%r" % (ug[0], real(c["h"]), ug[-1]), "--derivative", "der.tab"] + a], out, "table"
         if op == "resample_same":
             write_tab(os.path.join(d, "in.tab"), c, c["t"])
             xs = grid(c)
@@ -263,16 +321,20 @@ class Runner:
             return [S(a + ["in.tab", out])], out, "table"
         if op == "potential_extrapolate":
             write_tab(os.path.join(d, "in.tab"), c, c["t"])
-            a = ["--type", c["type"], "--lfct", c["lf"], "--avg-points", str(c["A"])]
+            a = ["--type", c["type"], "--avg-points", str(c["A"])]
+            if c["lf"]:
+                a += ["--lfct", c["lf"]]
             if c["rf"]:
                 a += ["--rfct", c["rf"]]
+            if c.get("clean"):
+                a += ["--clean"]
             return [S(a + ["in.tab", out])], out, "table"
         if op == "table_get_value":
             write_tab(os.path.join(d, "in.tab"), c, c["t"])
             return [S([num(c["X"]), "in.tab"])], None, "scalar"
         if op == "table_dummy":
             xs = grid(c)
-            a = []
+            a = ["--clean"] if c.get("clean") else []
             if c["y1"] != [0, 1]:
                 a += ["--y1", num(c["y1"])]
             if c["y2"] != [0, 1]:
@@ -283,7 +345,8 @@ class Runner:
             for j, t in enumerate(c["ts"]):
                 names.append("in%d.tab" % j)
                 write_tab(os.path.join(d, names[-1]), c, t)
-            return [S((["--cols", "4", "--col-y", "2"] if c.get("e4") else []) + ["--output", out] + names)], out, "table4"
+            return [S((["--cols", "4", "--col-y", "2"] if c.get("e4") else []) + (["--clean"] if c.get("clean") else [])
+                      + ["--output", out] + names)], out, "table4"
         if op == "average_linearop":
             names = []
             for j, t in enumerate(c["ts"]):
@@ -302,6 +365,7 @@ class Runner:
         shutil.rmtree(d, ignore_errors=True)
         os.makedirs(d)
         cmds, out, kind = self.commands(c, d, via_call)
+        before = set(os.listdir(d))
         if c.get("twice"):       # idempotent operator: once more on its own output
             inname = "dst.tab" if c["op"] == "merge_tables" else "in.tab"
             cmds = cmds + [["out.tab" if a == inname else ("out2.tab" if a == out else a) for a in cmds[-1]]]
@@ -319,12 +383,17 @@ class Runner:
             if p.returncode != 0:
                 obs["rc"] = p.returncode
                 return obs
+        obs["leftover"] = sorted(set(os.listdir(d)) - before - {"out.tab", "out2.tab", "der.tab", "res.tab", "int.tab", "avg.tab"})
+        if kind == "exit":
+            return obs
         if kind == "scalar":
             lines = [ln.strip() for ln in obs["stdout"].splitlines() if ln.strip()]
             obs["scalar"] = lines[-1] if lines else ""
         else:
-            obs["rows"], obs["malformed"] = read_rows(os.path.join(d, out), 4 if kind == "table4" else 3)
-            if c["op"] == "resample_same":
+            obs["rows"], obs["malformed"] = read_rows(os.path.join(d, out), 4 if kind in ("table4", "table4e") else 3)
+            if kind == "table4e" and obs["rows"] is not None:       # --with-errors: x y yerr flag; the error column is not asserted
+                obs["rows"] = [None if r is None else (r[0], r[1], r[3]) for r in obs["rows"]]
+            if c["op"] in ("resample_same", "resample_spline"):
                 obs["rows2"], obs["malformed2"] = read_rows(os.path.join(d, "der.tab"), 3)
             if c.get("twice"):
                 obs["rows_twice"], obs["malformed_twice"] = read_rows(os.path.join(d, "out2.tab"), 3)
@@ -381,6 +450,8 @@ def variant(c):
         return c["type"]
     if op == "resample_same":
         return c["type"] or "akima"
+    if op == "resample_spline":
+        return (c["type"] or "akima") + (":line" if c["isline"] else "")
     return ""
 
 
@@ -389,6 +460,8 @@ def expected_x(c, exp, m):
         return [real(q) for q in exp["x"]]
     if c["op"] in ("resample_derivative", "integrate_derivative"):
         return half_grid(c)
+    if c["op"] == "resample_spline":
+        return unit_grid(c)
     return grid(c)
 
 
@@ -413,13 +486,18 @@ def point_class(c, exp, k):
 
 def judge(c, exp, obs, ctx=None, drift=None):
     """returns [(key, text)]"""
-    bad = judge1(c, exp, obs, ctx, drift)
+    bad = judge1(c, exp, obs, ctx, None if c["op"] == "resample_spline" else drift)
     if c.get("twice") and obs["rc"] == 0:
         # script(script(t)) = script(t): the second output is judged against the same expectation
         o2 = dict(obs, rows=obs.get("rows_twice"), malformed=obs.get("malformed_twice"))
         bad += [(k.replace(c["op"] + ":", c["op"] + ":twice:", 1), t) for k, t in judge1(c, exp, o2, ctx, None)]
     if c.get("e4"):
         bad = [(k.replace(c["op"] + ":", c["op"] + ":4col:", 1), t) for k, t in bad]
+    if c["op"] == "resample_spline" and obs["rc"] == 0:
+        o2 = dict(obs, rows=obs.get("rows2"), malformed=obs.get("malformed2"))
+        bad += [(k.replace("resample_spline:", "resample_spline:derivative:", 1), t) for k, t in judge1(c, exp["d"], o2, ctx, None)]
+    if c.get("clean") and obs["rc"] == 0 and obs.get("leftover"):
+        bad.append((c["op"] + ":clean:leftover", "--clean left intermediate files behind: %s" % obs["leftover"]))
     if c["op"] == "resample_same" and obs["rc"] == 0:
         # the --derivative table: flags of the input for every spline type, values (either adjacent slope) for the linear one
         e2 = dict(exp["d"])
@@ -436,9 +514,16 @@ def judge1(c, exp, obs, ctx=None, drift=None):
     pre = op + (":" + var if var else "")
     if obs["rc"] == -999:
         raise vlib.InfraError("script timed out: %s" % obs["cmds"])
+    kind = exp["kind"]
+    if kind == "exit":
+        if ctx:
+            ctx.count()
+        if (obs["rc"] == 0) != exp["ok"]:
+            return [(pre + (":same" if exp["ok"] else ":different") + ":exit",
+                     "exit status %s, but the tables %s" % (obs["rc"], "agree" if exp["ok"] else "differ"))]
+        return []
     if obs["rc"] != 0:
         return [(pre + ":exit", "exit status %s: %s" % (obs["rc"], (obs["stderr"] or obs["stdout"])[-300:].strip()))]
-    kind = exp["kind"]
     if kind == "scalar":
         try:
             v = float(obs["scalar"])
@@ -522,6 +607,7 @@ def judge1(c, exp, obs, ctx=None, drift=None):
     for a in exp["alt"]:
         alt.setdefault(a[0] - 1, []).append(real(a[1]))
     free = set(k - 1 for k in exp["free"])
+    lg = {a[0] - 1: (real(a[1]), real(a[2])) for a in exp.get("lg", [])}     # exponential extrapolation: ln(y/y0) is rational
     off = 0.0
     if exp["const"]:
         ref = next((k for k in range(m) if k not in free), None)
@@ -533,6 +619,14 @@ def judge1(c, exp, obs, ctx=None, drift=None):
         if ctx:
             ctx.count()
         y = rows[k][1]
+        if k in lg:
+            y0, lr = lg[k]
+            if not (math.isfinite(y) and y / y0 > 0 and abs(math.log(y / y0) - lr) <= TOL * max(1.0, abs(lr))):
+                cls = point_class(c, exp, k)
+                bad.append((pre + (":" + cls if cls else "") + ":value",
+                            "row %d (x=%r): written %r, documented %r*exp(%r)" % (k, rows[k][0], y, y0, lr)))
+                break
+            continue
         if k in free:
             if not math.isfinite(y):
                 cls = point_class(c, exp, k)
@@ -549,6 +643,8 @@ def judge1(c, exp, obs, ctx=None, drift=None):
             break
     return bad
 
+
+REQUIRED_OPTIONS = _req()
 
 # ------------------------------------------------------------------------------------------------
 # trace direction: large random tables, judged by TLC
@@ -769,6 +865,18 @@ def run(ctx):
                 raise vlib.InfraError("case export incomplete: %d records for %d states" % (len(res.records), res.distinct))
             recs += res.records
         recs.sort(key=lambda r: (r["c"]["op"], r["c"]["n"], r["c"]["seed"]))
+        # every enumerated option value of every script must be exercised in every tier (the cases cycle through them)
+        seen = set()
+        for r in recs:
+            for k, v in r["c"].items():
+                if isinstance(v, (str, bool)):
+                    seen.add((r["c"]["op"], k, v))
+            if r["exp"].get("kind") == "exit":
+                seen.add((r["c"]["op"], "ok", r["exp"]["ok"]))
+        missing = [x for x in REQUIRED_OPTIONS if x not in seen]
+        if missing:
+            raise vlib.InfraError("option values not exercised by the TLC cases: %s" % missing)
+        ctx.extra["option_values_exercised"] = len(REQUIRED_OPTIONS)
         # exhaustive small domain of the two logarithmic scripts: every target/current pair over {0,1,4}^3 and every
         # i/u pattern of the current potential (algebra on all of them; thorough also on 4 points); the 3-point
         # update_ibi_pot cases are executed too (quick: every 60th)
